@@ -509,6 +509,15 @@ func replayCex(id, tier string, c *gosym.Cex, h *gosym.Harness, srcs []srcFile) 
 		os.WriteFile(dst, s.Data, 0o644)
 		repl[s.Virtual] = dst
 	}
+	if len(c.Sched) > 0 {
+		// concurrent counterexample: overlay instrumented copies of the current library files so that the native
+		// run passes through the same scheduling points as the symbolic run
+		for _, f := range instrumentForReplay() {
+			dst := filepath.Join(dir, "src__"+strings.ReplaceAll(f.Virtual, "/", "__"))
+			os.WriteFile(dst, f.Data, 0o644)
+			repl[f.Virtual] = dst
+		}
+	}
 	zz, _ := os.ReadFile(filepath.Join(verifDir, "rt/zzverif/zzverif.go"))
 	os.WriteFile(filepath.Join(dir, "src__zzverif.go"), zz, 0o644)
 	repl["internal/zzverif/zzverif.go"] = filepath.Join(dir, "src__zzverif.go")
@@ -641,4 +650,87 @@ func cmdReplay(args []string) int {
 
 func cmdSelftest(args []string) int {
 	return selftest()
+}
+
+var (
+	reGo        = regexp.MustCompile(`^(\s*)go (.+)$`)
+	reDeferUnl  = regexp.MustCompile(`^(\s*)defer ([\w\.]+)\.Unlock\(\)\s*$`)
+	reLock      = regexp.MustCompile(`^(\s*)([\w\.]+)\.Lock\(\)\s*$`)
+	reUnlock    = regexp.MustCompile(`^(\s*)([\w\.]+)\.Unlock\(\)\s*$`)
+	reAtomic    = regexp.MustCompile(`atomic\.(Load|Store|CompareAndSwap|Swap|Add)\w*\(|\.value\.(Load|Store|CompareAndSwap)\(`)
+	reOnce      = regexp.MustCompile(`\b(\w+)\.Do\(`)
+	reIndent    = regexp.MustCompile(`^(\s*)(.*)$`)
+	rePackage   = regexp.MustCompile(`(?m)^package \w+\s*$`)
+	instrumentDirs = []string{".", "internal/atomic", "future", "mutable", "lazy", "promise", "iterator", "list", "seq", "fn1"}
+)
+
+// instrumentForReplay rewrites (line-wise) the synchronisation sites of the current library sources.
+func instrumentForReplay() []srcFile {
+	var out []srcFile
+	for _, d := range instrumentDirs {
+		files, _ := filepath.Glob(filepath.Join(repoDir, d, "*.go"))
+		for _, f := range files {
+			if strings.HasSuffix(f, "_test.go") || strings.Contains(filepath.Base(f), "zz_verif") {
+				continue
+			}
+			b, err := os.ReadFile(f)
+			if err != nil {
+				continue
+			}
+			src := string(b)
+			if !strings.Contains(src, "sync") {
+				// only files that use sync / sync/atomic, or spawn goroutines
+				if !regexp.MustCompile(`(?m)^\s*go \w`).MatchString(src) {
+					continue
+				}
+			}
+			lines := strings.Split(src, "\n")
+			changed := false
+			usesOnce := strings.Contains(src, "sync.Once")
+			for i, l := range lines {
+				switch {
+				case strings.HasPrefix(strings.TrimSpace(l), "//"):
+				case reGo.MatchString(l):
+					m := reGo.FindStringSubmatch(l)
+					lines[i] = m[1] + "zzverif.Spawn(func() { " + m[2] + " })"
+					changed = true
+				case reDeferUnl.MatchString(l):
+					m := reDeferUnl.FindStringSubmatch(l)
+					lines[i] = m[1] + "defer zzverif.MutexUnlock(&" + m[2] + ")"
+					changed = true
+				case reLock.MatchString(l):
+					m := reLock.FindStringSubmatch(l)
+					lines[i] = m[1] + "zzverif.MutexLock(&" + m[2] + ")"
+					changed = true
+				case reUnlock.MatchString(l):
+					m := reUnlock.FindStringSubmatch(l)
+					lines[i] = m[1] + "zzverif.MutexUnlock(&" + m[2] + ")"
+					changed = true
+				case reAtomic.MatchString(l) && !strings.Contains(l, "import") && !strings.Contains(l, "\"sync/atomic\""):
+					m := reIndent.FindStringSubmatch(l)
+					if strings.HasPrefix(m[2], "if ") || strings.HasPrefix(m[2], "for ") || strings.HasPrefix(m[2], "}") {
+						lines[i] = m[1] + "zzverif.SchedPoint(\"atomic\")\n" + l
+					} else {
+						lines[i] = m[1] + "zzverif.SchedPoint(\"atomic\"); " + m[2]
+					}
+					changed = true
+				case usesOnce && reOnce.MatchString(l) && strings.Contains(l, "once"):
+					lines[i] = reOnce.ReplaceAllString(l, "zzverif.OnceDo(&$1, ")
+					changed = true
+				}
+			}
+			if !changed {
+				continue
+			}
+			res := strings.Join(lines, "\n")
+			loc := rePackage.FindStringIndex(res)
+			if loc == nil {
+				continue
+			}
+			res = res[:loc[1]] + "\n\nimport zzverif \"github.com/csgura/fp/internal/zzverif\"\n" + res[loc[1]:]
+			rel, _ := filepath.Rel(repoDir, f)
+			out = append(out, srcFile{Virtual: rel, Data: []byte(res)})
+		}
+	}
+	return out
 }
